@@ -73,9 +73,9 @@ func (ex *Exec) instr(s *State, fr *Frame, in ssa.Instruction) {
 			}
 		}
 	case *ssa.BinOp:
-		fr.env[x] = ex.binop(s, fr, x.Op, ex.val(fr, x.X), ex.val(fr, x.Y), x.Type(), x.X.Type(), x)
+		fr.env[x] = ex.nmValue(s, ex.binop(s, fr, x.Op, ex.val(fr, x.X), ex.val(fr, x.Y), x.Type(), x.X.Type(), x))
 	case *ssa.UnOp:
-		fr.env[x] = ex.unop(s, fr, x)
+		fr.env[x] = ex.nmValue(s, ex.unop(s, fr, x))
 	case *ssa.Convert:
 		fr.env[x] = ex.convert(s, fr, ex.val(fr, x.X), x.X.Type(), x.Type(), x)
 	case *ssa.MultiConvert:
